@@ -250,8 +250,8 @@ VisitAttr(t, k) ==
 \* Visitor.visit_importfrom
 VisitFrom(t, k) ==
   LET name == IF k.as = "-" THEN FromName(k.what) ELSE k.as
-  IN IF k.what = "other" /\ k.as = "-" /\ main = "init"
-     THEN t          \* `from . import other` in an __init__ module: skipped (whatever the current scope is)
+  IN IF k.what = "other" /\ k.as = "-" /\ ~InClass /\ main = "init"
+     THEN t          \* `from . import other` at module level of an __init__ module: skipped (self.current.is_module)
      ELSE SetMember(t, Scope \o <<name>>, SNode("alias", <<>>, "-", <<>>, FromTarget(k.what), {}, "from", "-", "none"))
 
 \* Visitor.visit_import for `import pkg.other [as x]`: without asname alias_path = alias_name = "pkg" (first component),
@@ -414,7 +414,8 @@ View(parent, n) ==
   IN [id |-> id, raw |-> raw, pic |-> pic,
       type |-> IF bound THEN "boundmethod" ELSE IF pic /\ raw.wrap = "prop" THEN "property" ELSE raw.type,
       cached |-> pic /\ raw.wrap = "cprop",
-      sig |-> IF bound THEN Tail(raw.sig) ELSE raw.sig]       \* inspect.signature drops the bound first parameter
+      sig |-> IF bound THEN Tail(raw.sig) ELSE raw.sig]       \* inspect.signature(obj) drops the bound first parameter
+                                                              \* (handle_function reads obj.__func__ = raw.sig for class methods)
 
 \* ObjectNode.kind: the ladder in code order
 Ladder(v) ==
@@ -463,6 +464,8 @@ Pick(o, ids, n) ==
   /\ n \in DOMAIN heap[o].vars                                      \* name in vars(self.obj)
   /\ IF n \in DOMAIN heap[o].vars THEN heap[o].vars[n] \notin ids ELSE FALSE      \* id(member) not in self._ids
 
+\* inspect_class: base.__module__ with the same builtin-underscore stripping as alias_target_path
+BaseModule(m) == IF StripAll(m) \in BuiltinStripped THEN StripAll(m) ELSE m
 FunctionKinds == {"staticmethod", "classmethod", "cached_property", "method", "coroutine", "function", "property"}
 KindLabels(k) ==
   CASE k = "staticmethod" -> {"staticmethod"} [] k = "classmethod" -> {"classmethod"}
@@ -481,14 +484,14 @@ InspChild(o, ids, rel, n, fuel) ==
            THEN {}                                                   \* own submodule with a __file__: the loader finds it
            ELSE {<<p, DNode("alias", <<>>, <<>>, <<>>, tgt, {})>>})
      ELSE IF k = "class"                                             \* inspect_class
-     THEN {<<p, DNode("class", <<>>, [i \in 1..Len(v.raw.bases) |-> heap[v.raw.bases[i]].mod \o heap[v.raw.bases[i]].qn],
+     THEN {<<p, DNode("class", <<>>, [i \in 1..Len(v.raw.bases) |-> BaseModule(heap[v.raw.bases[i]].mod) \o heap[v.raw.bases[i]].qn],
                       DynDoc(v.raw.doc), <<>>, {})>>}
           \cup (IF fuel = 0 THEN {} ELSE InspScope(v.id, ids \cup {v.id}, p, fuel - 1))
      ELSE IF k = "module" THEN {}
      ELSE IF k \in FunctionKinds                                     \* handle_function
      THEN (IF "property" \in KindLabels(k)
            THEN {<<p, DNode("attribute", <<>>, <<>>, DynDoc(v.raw.doc), <<>>, KindLabels(k))>>}
-           ELSE {<<p, DNode("function", DynParams(v.sig), <<>>, DynDoc(v.raw.doc), <<>>, KindLabels(k))>>})
+           ELSE {<<p, DNode("function", DynParams(IF k = "classmethod" THEN v.raw.sig ELSE v.sig), <<>>, DynDoc(v.raw.doc), <<>>, KindLabels(k))>>})
      ELSE {<<p, DNode("attribute", <<>>, <<>>, <<>>, <<>>, {})>>}      \* handle_attribute
 InspScope(o, ids, rel, fuel) ==
   UNION {InspChild(o, ids, rel, n, fuel) : n \in {m \in Candidates(o) : Pick(o, ids, m)}}
@@ -548,13 +551,9 @@ Cause(t, d, p, clause) ==
   IN IF o = "annonly" /\ clause \in {"members", "kind"} THEN "annonly"
      ELSE IF o = "ref" /\ clause = "kind" THEN "ref"
      ELSE IF clause = "members" /\ o = "import" /\ ~hasD /\ main = "init" THEN "import-self"
-     ELSE IF clause = "members" /\ ~hasS /\ hasD /\ main = "init" /\ Len(p) >= 2 /\ Last(p) = "other" THEN "from-dot-in-class"
-     ELSE IF clause = "params" /\ hasS /\ "classmethod" \in t[p].labels THEN "classmethod-cls"
      ELSE IF clause = "bases" /\ hasS /\ Bvia(t, p) = "annonly" THEN "annonly"
      ELSE IF clause = "bases" /\ hasS /\ Rebound(t, p) THEN "base-rebound"
      ELSE IF clause = "bases" /\ hasS /\ Bvia(t, p) = "ref" THEN "ref"
-     ELSE IF clause = "bases" /\ hasS /\ hasD /\ LazyBase(t, p) = <<[i \in 1..Len(d[p].bases[1]) |-> Lstrip(d[p].bases[1][i])]>>
-          THEN "base-builtin-module"
      ELSE "none"
 
 DiffsOf(t, d, a, b) ==
@@ -602,12 +601,9 @@ DiffsExplained == Done => \A x \in diffs : x.cause # "none"
 DiffsComplete == Done => ((diffs = {}) <=> (skS = skD))
 \* one invariant per recorded root cause: TLC's counterexample is the defect's witness program
 NoAnnOnly == Done => \A x \in diffs : x.cause # "annonly"
-NoClassmethodCls == Done => \A x \in diffs : x.cause # "classmethod-cls"
 NoImportSelf == Done => \A x \in diffs : x.cause # "import-self"
 NoBaseRebound == Done => \A x \in diffs : x.cause # "base-rebound"
 NoRef == Done => \A x \in diffs : x.cause # "ref"
-NoFromDotInClass == Done => \A x \in diffs : x.cause # "from-dot-in-class"
-NoBaseBuiltinModule == Done => \A x \in diffs : x.cause # "base-builtin-module"
 \* functions: the static signature is CPython's own (the dynamic one is checked against it through skS = skD)
 TreeSeq(t) == {[path |-> p, node |-> t[p]] : p \in DOMAIN t}
 StaticMeta == {[path |-> p, origin |-> st[p].origin, val |-> st[p].val, dshape |-> st[p].dshape, labels |-> st[p].labels, bvia |-> Bvia(st, p),
